@@ -73,3 +73,8 @@ check("C10",
       "Exploration: for every generated (in-flight requests, answered prefix, fault kind, cut offset, timing) the dying connection's callers must all complete within 10 s, never with another request's or a partial response; non-idempotent ones must fail and never be re-sent; completely answered ones succeed; the session serves a follow-up request and reconnects.",
       "Trusted: vkit::mock, real loopback TCP and tokio time. Liveness = completion within 10 s (normal: ms). Interleavings inside the router task are sampled. Each case uses a fresh 2-node mock and Session.",
       "DESIGN.md 2/C10")
+check("C12",
+      "end-to-end property-based testing against generated mock clusters (topology, sharding, schema, tablets); oracle from reference token, replica and shard computations over the mock's frame log",
+      "Exploration: for every generated cluster layout (nodes/DCs/racks/vnodes/shard counts/shard-aware port, keyspace strategy, key shape with permuted bind markers, CDC partitioner, DC preference, tablets announced via response payloads) a real Session fetches the schema, fills its pools and executes prepared statements; the first frame of each request must arrive at a reference replica of the key's token (preferred DC first) on a connection of the owning shard when one exists, and the result must name that coordinator.",
+      "Trusted: reference Murmur3/CDC token, replica walkers, shard_of, mock cluster. Requests are issued after every (node, shard) has a pool connection; tablet assertions only after the announced tablet is visible through get_token_endpoints().",
+      "DESIGN.md 2/C12")
